@@ -37,6 +37,9 @@ theorem boxIndices_off (l : Layout) (hwf : l.WF) : (boxIndices l.exts).map l.off
       have : (f + Int.ofNat k) * d.stride = f * d.stride + Int.ofNat k * d.stride := Int.add_mul _ _ _
       omega
 
+/-- the addresses of the elements of `v` in canonical order -/
+def canonAddrs (v : View) : List Int := (boxIndices v.exts).map v.addr
+
 /-- canonical-order addresses of a well-formed view -/
 theorem canon_addrs (v : View) (hwf : v.lay.WF) :
     (boxIndices v.exts).map v.addr = v.lay.canonOffs.map (v.base + ·) := by
